@@ -112,6 +112,9 @@ type walkCfg struct {
 }
 
 // enumPaths enumerates CFG paths from start. Unknown branches fork.
+// pathScale multiplies every path-enumeration budget (1 in the quick tier, 4 in the thorough tier).
+var pathScale = 1
+
 func enumPaths(start *ssa.BasicBlock, cfg walkCfg) (paths []*Path, truncated bool) {
 	if cfg.MaxVisits == 0 {
 		cfg.MaxVisits = 1
@@ -119,6 +122,7 @@ func enumPaths(start *ssa.BasicBlock, cfg walkCfg) (paths []*Path, truncated boo
 	if cfg.MaxPaths == 0 {
 		cfg.MaxPaths = 20000
 	}
+	cfg.MaxPaths *= pathScale // thorough tier: four times the enumeration budget before a rule answers "undecided"
 	var rec func(p *Path, b *ssa.BasicBlock, first bool)
 	rec = func(p *Path, b *ssa.BasicBlock, first bool) {
 		if truncated {
